@@ -7,7 +7,7 @@ namespace Axelar.Surface
 open Axelar Generated
 
 def tokenManagerExpected : List (String × String × Bool × String × Nat) := [
-  ("callback", "deploy_token_callback", false, "", 1),
+  ("callback", "deploy_token_callback", false, "", 0),
   ("endpoint", "acceptMintership", false, "", 1),
   ("endpoint", "acceptOperatorship", false, "", 1),
   ("endpoint", "addFlowLimiter", false, "", 1),
